@@ -183,11 +183,18 @@ def replay_classify(case) -> dict:
     extra = 1.5 * np.exp(-((zz - 4) ** 2 + (yy - 6.5) ** 2 + (xx - 2) ** 2) / 2.0)
     tomo = (0.02 * rng.normal(size=(24, 24, 14 * n + 10))).astype(np.float32)
     pos = np.array([[12, 12, 10 + 14 * i] for i in range(n)], dtype=np.float32)
+    # orientations: identity, or quarter turns mixed with identities INDEPENDENTLY of the structural class (the density is planted in
+    # each molecule's own frame, so the loaded sub-volumes of a class are the same whatever the orientation)
+    from harness.lattice import apply_rot24
+
+    Q = np.array([[1, 0, 0], [0, 0, -1], [0, 1, 0]])
+    mixed = case.get("orient") == "mixed"
+    mats = [Q if (mixed and (i // 2) % 2) else np.eye(3, dtype=int) for i in range(n)]
     for i, p in enumerate(pos):
         sl = tuple(slice(int(c) - 4, int(c) + 5) for c in p)
-        tomo[sl] += base + (extra if kinds[i] else 0)
+        tomo[sl] += apply_rot24(base + (extra if kinds[i] else 0), mats[i], (0, 0, 0))
     feats = pl.DataFrame({"tag": list(range(100, 100 + n)), "name": [f"m{i}" for i in range(n)]})
-    mole = Molecules(pos, Rotation.identity(n), features=feats)
+    mole = Molecules(pos, Rotation.from_matrix(np.array(mats, dtype=float)), features=feats)
     if case["loader"] == "single":
         loader = SubtomogramLoader(tomo, mole, order=1, output_shape=box)
     else:
@@ -195,11 +202,12 @@ def replay_classify(case) -> dict:
         half = n // 2
         loader.add_tomogram(tomo, mole.subset(slice(0, half)))
         loader.add_tomogram(tomo.copy(), mole.subset(slice(half, n)))
-    desc = dict(part="classify", n=n, loader=case["loader"])
+    desc = dict(part="classify", n=n, loader=case["loader"], tilt=case.get("tilt"), orient=case.get("orient", "identity"))
     fails = []
     before_pos = np.array(loader.molecules.pos, copy=True)
     before_feat = loader.molecules.features.clone()
-    res, exc = engine.api_try(loader.classify, n_components=2, n_clusters=2, seed=case["seed"], label_name="cls")
+    ckw = dict(tilt=tuple(case["tilt"]), cutoff=1.0) if case.get("tilt") else {}
+    res, exc = engine.api_try(loader.classify, n_components=2, n_clusters=2, seed=case["seed"], label_name="cls", **ckw)
     if exc is not None:
         return dict(failures=[dict(desc, clause="Raised", error=f"{exc.kind}: {exc.msg[:80]}")])
     out = res.loader.molecules
@@ -213,6 +221,23 @@ def replay_classify(case) -> dict:
         fails.append(dict(desc, clause="NothingElseChanged"))
     if not (np.array_equal(np.asarray(loader.molecules.pos), before_pos) and loader.molecules.features.equals(before_feat)):
         fails.append(dict(desc, clause="ParentUnchanged"))
+    if case.get("tilt"):
+        # the stack that is classified is the wedge-masked difference: image i minus the average, both limited to the region of
+        # Fourier space that molecule i's orientation leaves sampled (cutoff 1.0: no low-pass).  Its exact SVD gives the singular values.
+        from acryo.tilt import single_axis
+
+        subs = np.stack([np.asarray(loader.load(i), dtype=np.float64) for i in range(n)])
+        avg = subs.mean(axis=0)
+        tm = single_axis(tuple(case["tilt"]))
+        rows = []
+        for i in range(n):
+            mw = np.asarray(tm.create_mask(loader.molecules.rotator[i], box), dtype=np.float64)
+            rows.append(np.fft.ifftn(np.fft.fftn(subs[i] - avg) * mw).real.ravel())
+        X = np.stack(rows)
+        sv = np.linalg.svd(X - X.mean(axis=0), compute_uv=False)[:2]
+        got_sv = np.asarray(res.classifier.pca.singular_values_, dtype=np.float64)[:2]
+        if got_sv.shape != sv.shape or np.max(np.abs(got_sv - sv)) > 2e-3 * max(1.0, float(sv[0])):
+            fails.append(dict(desc, clause="ClassifiesTheWedgeMaskedDifferences", observed=[round(float(x), 4) for x in got_sv], expected=[round(float(x), 4) for x in sv]))
     labels = f["cls"].to_list()
     groups = {}
     for k, l in zip(kinds, labels):
@@ -232,6 +257,8 @@ def run(rep: engine.Report, tier: str, seed: int):
     for i, c in enumerate(sel):
         c["_int"] = (i + seed) % 2
     cls = [dict(kind="classify", n=n, loader=l, seed=seed + i) for i, (n, l) in enumerate((n, l) for n in (6, 9, 12) for l in ("single", "batch"))]
+    cls += [dict(kind="classify", n=n, loader=l, seed=seed + 7 + i, tilt=list(t), orient=o)
+            for i, (n, l, t, o) in enumerate((n, l, t, o) for n in (8, 12) for l in ("single", "batch") for t in ((-60.0, 60.0), (-40.0, 50.0)) for o in ("identity", "mixed"))]
     noisy = [dict(kind="noisy", n=n, box=list(b), seed=seed * 31 + i) for i, (n, b) in enumerate((n, b) for n in (6, 12, 30, 60) for b in ((4, 4, 4), (6, 7, 8), (7, 8, 9), (10, 10, 10)))]
     allc = sel + cls + noisy
     results = engine.parallel_replay("harness.props.c18", "replay", allc)
@@ -242,7 +269,8 @@ def run(rep: engine.Report, tier: str, seed: int):
         "TLC enumerates block-orthogonal integer designs (4 and 8 images, 3 blocks, 3 weightings x 3 block-size vectors with pairwise "
         "distinct singular values) x boxes of 27, 40 and 729 voxels x n_components {2,3} x mask {none, 0/1, soft with weights 1/2 and 1} x row chunkings {one, one row each, uneven} "
         f"x voxel chunking, with exact sigma^2, squared projections and component supports; {len(cases)} cases, {len(sel)} run through "
-        f"PcaClassifier; plus {len(cls)} loader.classify cases on planted two-class tomograms (single and batch loaders)"
+        f"PcaClassifier; plus {len(cls)} loader.classify cases on planted two-class tomograms (single and batch loaders; without and with a tilt "
+        "range, molecules all in one orientation or in two orientations mixed independently of the class: singular values = exact SVD of the wedge-masked differences)"
     )
     rep.assumptions += ["agreement with an exact SVD on full-rank noisy data is not decided (no exact oracle inside the technique); it is covered "
                         "through the exact low-rank family (incl. truncation n_components < rank), chunking invariance and run-to-run reproducibility"]
